@@ -372,7 +372,7 @@ def post_process_findings(banner: Optional[Banner], algs: Algorithms, client_aud
         ret = []
 
         if algs.ssh2kex is not None:
-            ciphers_supported = algs.ssh2kex.client.encryption if client_audit else algs.ssh2kex.server.encryption
+            ciphers_supported = algs.ssh2kex.server.encryption  # (The lists that are reported, rated and recommended about, whichever side is audited.)
             for cipher in ciphers_supported:
                 if cipher.startswith("chacha20-poly1305"):
                     ret.append(cipher)
@@ -394,7 +394,7 @@ def post_process_findings(banner: Optional[Banner], algs: Algorithms, client_aud
         ret = []
 
         if algs.ssh2kex is not None:
-            ciphers_supported = algs.ssh2kex.client.encryption if client_audit else algs.ssh2kex.server.encryption
+            ciphers_supported = algs.ssh2kex.server.encryption  # (The lists that are reported, rated and recommended about, whichever side is audited.)
             for cipher in ciphers_supported:
                 if cipher.endswith("-cbc") or cipher.endswith("-cbc@openssh.org") or cipher.endswith("-cbc@ssh.com") or cipher == "rijndael-cbc@lysator.liu.se":
                     ret.append(cipher)
@@ -416,7 +416,7 @@ def post_process_findings(banner: Optional[Banner], algs: Algorithms, client_aud
         ret = []
 
         if algs.ssh2kex is not None:
-            macs_supported = algs.ssh2kex.client.mac if client_audit else algs.ssh2kex.server.mac
+            macs_supported = algs.ssh2kex.server.mac
             for mac in macs_supported:
                 if mac.endswith("-etm@openssh.com"):
                     ret.append(mac)
